@@ -226,6 +226,11 @@ def _execute(sc, ctx):
                       f"{where}: systems executed after completion: {w.log[frozen_log:]}")
             ctx.check(sm.timestep == frozen_clock and m.timestep == frozen_clock, "clock-moved-after-complete",
                       f"{where}: timestep {sm.timestep}, was {frozen_clock} when completion returned")
+            # a refused request leaves ALL model state untouched: the registered systems are the ones registered / removed by name
+            ctx.check([s_.id for s_ in sm.execution_queue] == ref.ids() and sorted(map(str, sm.systems)) == sorted(ref.ids()),
+                      "registry-changed-after-complete",
+                      lambda: f"{where}: queue {[s_.id for s_ in sm.execution_queue]} / registry {sorted(map(str, sm.systems))}, "
+                              f"registered by the history: {ref.ids()}")
         else:
             ctx.check(m.is_running() is True and bool(m) is True, "not-running-before-complete", where)
 
